@@ -26,8 +26,10 @@ package webrtc
 
 import (
 	"fmt"
+	"runtime"
 	"sort"
 	"sync"
+	"sync/atomic"
 	"testing"
 	"time"
 
@@ -638,4 +640,317 @@ func TestVerif_C18_AllocatorModel(t *testing.T) {
 		}
 		return c
 	}, vfC18AllocRun)
+}
+
+// ---- Part 3: one id-less channel opened from both library paths at once ----------------------
+//
+// The library opens a locally created channel from two places: PeerConnection.CreateDataChannel
+// (opens it itself when SCTP is already connected) and SCTPTransport.Start (opens every
+// registered channel that is still connecting).  An application that creates a channel at the
+// moment SCTP comes up has both run on the same channel.  The harness owns that schedule: on a
+// connected pair it registers an id-less channel exactly as CreateDataChannel does, holds the
+// transport's read lock while it starts the two openers (so that the first is parked at the id
+// allocation and the second right behind it), releases, and samples the public ID() all the
+// time.  Plain and explicit-id creations are mixed in; a few channels are also created from the
+// OnConnectionStateChange(connected) callback (the natural, low-hit-rate form of the race).
+//
+// Oracle (statement): once ID() has returned a value it never returns another one; the stream
+// id the far side is told for the channel (DCEP open) is the id ID() reports.  The number of ids
+// the transport reserved per channel and the number of channels announced remotely are counted.
+
+type vfC18RaceOp struct {
+	Kind       string `json:"kind"`        // race | plain | explicit
+	StartFirst bool   `json:"start_first"` // race: the SCTPTransport.Start path is launched first
+	GapUs      int    `json:"gap_us"`      // race: pause between launching the two openers
+	Explicit   int    `json:"explicit"`    // explicit: the id (skipped when already in use)
+}
+
+type vfC18RaceCase struct {
+	AnsRole   string        `json:"ans_role"`
+	Side      int           `json:"side"`       // PeerConnection on which the channels are created
+	AtConnect int           `json:"at_connect"` // channels created from OnConnectionStateChange(connected) on that side
+	Ops       []vfC18RaceOp `json:"ops"`
+}
+
+type vfC18Sampler struct {
+	dc   *DataChannel
+	seen []uint16
+	stop atomic.Bool
+	done chan struct{}
+}
+
+func vfC18StartSampler(dc *DataChannel) *vfC18Sampler {
+	sm := &vfC18Sampler{dc: dc, done: make(chan struct{})}
+	go func() {
+		defer close(sm.done)
+		for {
+			if id := dc.ID(); id != nil && (len(sm.seen) == 0 || sm.seen[len(sm.seen)-1] != *id) {
+				sm.seen = append(sm.seen, *id)
+			}
+			if sm.stop.Load() {
+				return
+			}
+			runtime.Gosched()
+		}
+	}()
+	return sm
+}
+
+func (sm *vfC18Sampler) finish() []uint16 {
+	sm.stop.Store(true)
+	<-sm.done
+	if id := sm.dc.ID(); id != nil && (len(sm.seen) == 0 || sm.seen[len(sm.seen)-1] != *id) {
+		sm.seen = append(sm.seen, *id)
+	}
+	return sm.seen
+}
+
+func vfC18RaceRun(v *vfT, c vfC18RaceCase) {
+	ans := vfFamDPeer{SE: func(se *SettingEngine) {
+		switch c.AnsRole {
+		case "client":
+			_ = se.SetAnsweringDTLSRole(DTLSRoleClient)
+		case "server":
+			_ = se.SetAnsweringDTLSRole(DTLSRoleServer)
+		}
+	}}
+	pair, err := vfFamDNewPair(vfFamDPeer{}, ans, 0)
+	if err != nil {
+		v.Skip("pair construction failed: " + err.Error())
+	}
+	// A channel that was opened twice has two read loops; closing it can crash the process from
+	// a background goroutine.  When the oracle is broken the pair is deliberately left alone.
+	leak := false
+	defer func() {
+		if !leak {
+			pair.Close()
+		}
+	}()
+	side := c.Side & 1
+	pcs := [2]*PeerConnection{pair.Off, pair.Ans}
+	pc, far := pcs[side], pcs[1-side]
+	tr := pc.sctpTransport
+
+	var amu sync.Mutex
+	var arrived []*DataChannel
+	far.OnDataChannel(func(d *DataChannel) {
+		amu.Lock()
+		arrived = append(arrived, d)
+		amu.Unlock()
+	})
+	type tracked struct {
+		dc      *DataChannel
+		label   string
+		sampler *vfC18Sampler
+		kind    string
+	}
+	var tmu sync.Mutex
+	var all []*tracked
+	fail := func(class, format string, args ...any) {
+		leak = true
+		v.Violation(class, format, args...)
+	}
+
+	// the natural form: create from the connected callback
+	if c.AtConnect > 0 {
+		var once sync.Once
+		pc.OnConnectionStateChange(func(s PeerConnectionState) {
+			if s != PeerConnectionStateConnected {
+				return
+			}
+			once.Do(func() {
+				for k := 0; k < c.AtConnect && k < 4; k++ {
+					label := fmt.Sprintf("atconnect-%d", k)
+					d, cerr := pc.CreateDataChannel(label, nil)
+					if cerr != nil {
+						continue
+					}
+					t := &tracked{dc: d, label: label, kind: "at-connect", sampler: vfC18StartSampler(d)}
+					tmu.Lock()
+					all = append(all, t)
+					tmu.Unlock()
+				}
+			})
+		})
+		v.Label("race:create-from-connected-callback")
+	}
+	if _, err = pair.Off.CreateDataChannel("vf-base", nil); err != nil {
+		v.Skip("CreateDataChannel(base): " + err.Error())
+	}
+	if err = pair.Signal(nil, nil); err != nil {
+		v.Label("inconclusive:race/signal-error")
+		return
+	}
+	if !pair.WaitConnected(vfC18Watchdog) || !vfFamDWaitFor(vfC18Watchdog, func() bool { return tr.State() == SCTPTransportStateConnected }) {
+		v.Label("inconclusive:race/not-connected")
+		return
+	}
+	reserved := func() int {
+		tr.lock.RLock()
+		defer tr.lock.RUnlock()
+		return len(tr.dataChannelIDsUsed)
+	}
+	inUse := func(id uint16) bool {
+		tr.lock.RLock()
+		defer tr.lock.RUnlock()
+		_, ok := tr.dataChannelIDsUsed[id]
+		return ok
+	}
+
+	for i, op := range c.Ops {
+		label := fmt.Sprintf("%s-%d", op.Kind, i)
+		before := reserved()
+		var t *tracked
+		switch op.Kind {
+		case "plain":
+			d, cerr := pc.CreateDataChannel(label, nil)
+			if cerr != nil {
+				v.Label("race:create-error")
+				continue
+			}
+			t = &tracked{dc: d, label: label, kind: "plain", sampler: vfC18StartSampler(d)}
+		case "explicit":
+			id := uint16(op.Explicit)
+			if inUse(id) {
+				v.Label("skipped-op:explicit-id-already-used")
+				continue
+			}
+			d, cerr := pc.CreateDataChannel(label, &DataChannelInit{ID: &id})
+			if cerr != nil {
+				v.Label("race:create-error")
+				continue
+			}
+			t = &tracked{dc: d, label: label, kind: "explicit", sampler: vfC18StartSampler(d)}
+		case "race":
+			// the steps of CreateDataChannel up to, not including, its open call
+			d, cerr := pc.api.newDataChannel(&DataChannelParameters{Label: label, Ordered: true}, nil, pc.log)
+			if cerr != nil {
+				v.Skip("newDataChannel: " + cerr.Error())
+			}
+			tr.lock.Lock()
+			tr.dataChannels = append(tr.dataChannels, d)
+			tr.dataChannelsRequested++
+			tr.lock.Unlock()
+			t = &tracked{dc: d, label: label, kind: "race", sampler: vfC18StartSampler(d)}
+			createPath := func() { _ = d.open(tr) }
+			startPath := func() {
+				if d.ReadyState() == DataChannelStateConnecting {
+					_ = d.open(tr)
+				}
+			}
+			first, second := createPath, startPath
+			if op.StartFirst {
+				first, second = startPath, createPath
+			}
+			gap := time.Duration(op.GapUs) * time.Microsecond
+			var wg sync.WaitGroup
+			wg.Add(2)
+			tr.lock.RLock() // shapes the interleaving only: id allocation needs the write lock
+			go func() { defer wg.Done(); first() }()
+			time.Sleep(gap)
+			go func() { defer wg.Done(); second() }()
+			time.Sleep(gap)
+			tr.lock.RUnlock()
+			wg.Wait()
+			v.Label("race:two-openers")
+		default:
+			continue
+		}
+		tmu.Lock()
+		all = append(all, t)
+		tmu.Unlock()
+		opened := vfFamDWaitFor(vfC18Watchdog, func() bool {
+			return t.dc.ID() != nil && t.dc.ReadyState() == DataChannelStateOpen
+		})
+		if !opened {
+			v.Label("inconclusive:race/channel-not-open")
+			break
+		}
+		if grew := reserved() - before; grew != 1 {
+			v.Label(fmt.Sprintf("note:transport-reserved-%d-ids-for-one-channel", grew))
+		}
+	}
+
+	// settle: every tracked channel announced on the far side (bounded), then evaluate
+	tmu.Lock()
+	chans := append([]*tracked{}, all...)
+	tmu.Unlock()
+	vfFamDWaitFor(2*time.Second, func() bool {
+		amu.Lock()
+		defer amu.Unlock()
+		for _, t := range chans {
+			found := false
+			for _, d := range arrived {
+				found = found || d.Label() == t.label
+			}
+			if !found {
+				return false
+			}
+		}
+		return true
+	})
+	for _, t := range chans {
+		seen := t.sampler.finish()
+		if len(seen) > 1 {
+			fail("C18/id-changed", "%s channel %q on side %d: ID() returned %v in this order (DTLS role %s)", t.kind, t.label, side, seen, vfFamDDTLSRole(pc))
+		}
+		idp := t.dc.ID()
+		if idp == nil {
+			v.Label("inconclusive:race/id-never-set")
+			continue
+		}
+		amu.Lock()
+		var farIDs []uint16
+		for _, d := range arrived {
+			if d.Label() == t.label {
+				if fid := d.ID(); fid != nil {
+					farIDs = append(farIDs, *fid)
+				}
+			}
+		}
+		amu.Unlock()
+		for _, fid := range farIDs {
+			if fid != *idp {
+				// the channel was dialed on stream fid (that is what the far side was told), so ID() was fid then
+				fail("C18/id-changed", "%s channel %q on side %d: the far side was told stream id(s) %v for it, ID() now reports %d", t.kind, t.label, side, farIDs, *idp)
+			}
+		}
+		if len(farIDs) > 1 {
+			v.Label("note:far-side-saw-several-channels-for-one")
+		}
+		if len(farIDs) == 1 {
+			v.Label("race:id-stable-and-equal-to-announced")
+		}
+	}
+	if len(chans) >= 2 {
+		v.NonTrivial()
+	}
+}
+
+func TestVerif_C18_RacingOpen(t *testing.T) {
+	vfProperty(t, "C18", vfOpts{
+		Rule: "connected pair; 2..8 channel creations on one side: id-less channel registered as CreateDataChannel does and opened from the CreateDataChannel path and the SCTPTransport.Start path at once (order and gap drawn, transport read lock held while both are launched), mixed with plain and explicit-id CreateDataChannel calls, plus 0..3 channels created from OnConnectionStateChange(connected); ID() sampled continuously; non-trivial = at least two channels tracked to the end",
+		Assumptions: []string{
+			"both openers are the library's own call sites for a locally created channel (CreateDataChannel when SCTP is connected, SCTPTransport.Start for channels still connecting); holding the transport's read lock only shapes their interleaving",
+			"the stream id the far side is told for a channel is the value ID() had when the channel was dialed",
+		},
+	}, func(v *vfT) vfC18RaceCase {
+		c := vfC18RaceCase{
+			AnsRole:   rapid.SampledFrom([]string{"", "client", "server"}).Draw(v.R, "ans_role"),
+			Side:      rapid.IntRange(0, 1).Draw(v.R, "side"),
+			AtConnect: rapid.SampledFrom([]int{0, 0, 1, 3}).Draw(v.R, "at_connect"),
+		}
+		for i, n := 0, rapid.IntRange(2, 8).Draw(v.R, "nops"); i < n; i++ {
+			switch rapid.IntRange(0, 5).Draw(v.R, "op") {
+			case 0:
+				c.Ops = append(c.Ops, vfC18RaceOp{Kind: "plain"})
+			case 1:
+				c.Ops = append(c.Ops, vfC18RaceOp{Kind: "explicit", Explicit: rapid.IntRange(0, 40).Draw(v.R, "explicit")})
+			default:
+				c.Ops = append(c.Ops, vfC18RaceOp{Kind: "race", StartFirst: rapid.Bool().Draw(v.R, "start_first"),
+					GapUs: rapid.SampledFrom([]int{200, 1000, 3000}).Draw(v.R, "gap_us")})
+			}
+		}
+		return c
+	}, vfC18RaceRun)
 }
